@@ -28,7 +28,7 @@ OPS = [(0, 0), (0, 1), (0, 2), (1, 0), (1, 1), (1, 2), (2, 0), (3, 0), (3, 1), (
        (5, 0), (6, 0), (7, 0)]
 ADV = [1, 2, 5]
 # concrete prefixes that build the symbolic pre-state through the same step function
-PREFIX = [[], [1], [8], [8, 4]]     # fresh | local close(code) sent | in-flight message | peer close behind in-flight
+PREFIX = [[], [10], [8], [8, 4]]    # fresh | clock +2 s (first ping outstanding) | in-flight message | peer close behind in-flight
 CLOSING_TIMEOUT_BOUND = 100          # the oracle only demands "eventually" (well beyond tornado's few seconds)
 
 
@@ -42,6 +42,22 @@ def pre_close(cfg: int, prestate: int, lc: int, pc: int, ops: List[int]) -> bool
     for o in ops:
         if not 0 <= o < len(OPS):
             return False
+    # reach twins only: steer the witness search (a subset of the bounds above)
+    r = P.reach
+    if r == "pong_in_time_keeps_open":
+        return cfg == 2 and prestate == 1 and len(ops) == 2 and ops[0] == 12 and ops[1] == 9
+    if r == "ping_timeout_close":
+        return cfg == 2 and prestate == 1 and len(ops) >= 1 and ops[0] == 9
+    if r == "closing_timeout_abort":
+        return cfg == 0 and prestate == 0 and len(ops) == 2 and ops[1] == 11
+    if r == "echo_peer_code":
+        return cfg == 0 and prestate == 0 and len(ops) >= 1 and ops[0] >= 4
+    if r == "write_after_close_raises":
+        return cfg == 0 and prestate == 0 and len(ops) == 2 and ops[1] == 13
+    if r == "peer_close_during_inflight":
+        return cfg == 0 and prestate == 2 and len(ops) >= 1
+    if r == "crossing_closes":
+        return cfg == 0 and prestate == 3
     return True
 
 
@@ -65,8 +81,8 @@ def pre_close(cfg: int, prestate: int, lc: int, pc: int, ops: List[int]) -> bool
            "(ping_interval, ping_timeout) from the pool {(off), (2, default), (2, 1), (3, 0)} by symbolic index; clock "
            "advances of 1/2/5 s executed in 1 s ticks; close codes of both sides are symbolic ints 1000..4999; reasons "
            "are fixed ASCII strings",
-           "schedule = concrete prefix (pre-state: fresh | we already sent close | on_message coroutine in flight | peer "
-           "close frame queued behind an in-flight on_message) + N symbolic steps from {local close x3 forms, peer "
+           "schedule = concrete prefix (pre-state: fresh | 2 s elapsed = first ping outstanding when pinging | on_message "
+           "coroutine in flight | peer close frame queued behind an in-flight on_message) + N symbolic steps from {local close x3 forms, peer "
            "close frame x3 forms, peer EOF, message (sync / async on_message), clock advance x3, pong, write_message, "
            "on_message completes}, then a drain (in-flight completes, clock +100 s)",
            "a pong or peer frame that arrives while an async on_message is in flight is not 'received' until it "
